@@ -46,6 +46,8 @@ RULE = (
     'one play(quant) probe. Non-trivial = at least one tempo change and one '
     'meter change precede a query with phase != 0. Distinct by sha1.'
     " Steps may use etempo and may move the pending play probe to another quant; rt stage: C05's tempo programs on the RT simulation.")
+RULE += ' ' + (
+    'In the rt stage routines also move the beats of clocks (beats_add); spawning steps then count as interacting.')
 ASSUMPTIONS = [
     'beats= is generated as the last operation of a history only: the '
     'library documents that a beats change made from a scheduled routine '
